@@ -273,9 +273,9 @@ def replay_trajectory(w):
   bad = False
   for swi in (False, True):
     step = lambda t: t + 1
-    final, traj = ti.trajectory_from_step(step, outer, inner, start_with_input=swi, post_process_fn=lambda v: 10 * v,
+    final, traj = ti.trajectory_from_step(step, outer, inner, start_with_input=swi, post_process_fn=lambda v: 10 * v + 7,
                                           outer_scan_fn=_py_scan, inner_scan_fn=_py_scan)(0)
-    want = [10 * ((k if swi else k + 1) * inner) for k in range(outer)]
+    want = [10 * ((k if swi else k + 1) * inner) + 7 for k in range(outer)]
     ok = final == outer * inner and list(traj or []) == want
     bad |= not ok
     msgs.append(f'start_with_input={swi}: final={final} (want {outer*inner}) frames={traj} (want {want})')
@@ -581,13 +581,18 @@ def run_trajectory_twin(ctx):
           n += 1
           name = f'trajectory[outer={outer},inner={inner},start_with_input={swi},{scan_name}]'
           s0 = {'x': jnp.asarray(1.0), 'n': jnp.asarray(0)} if scan_name == 'lax' else {'x': 1.0, 'n': 0}
-          final, traj = ti.trajectory_from_step(fstep, outer, inner, start_with_input=swi, post_process_fn=post,
-                                                outer_scan_fn=scan, inner_scan_fn=scan)(s0)
           rf, rframes = ref(outer, inner, swi)
-          if scan_name == 'lax':
-            got = [(float(traj['x2'][k]), int(traj['n'][k])) for k in range(outer)]
-          else:
-            got = [(float(fr['x2']), int(fr['n'])) for fr in traj]
+          try:
+            final, traj = ti.trajectory_from_step(fstep, outer, inner, start_with_input=swi, post_process_fn=post,
+                                                  outer_scan_fn=scan, inner_scan_fn=scan)(s0)
+            if scan_name == 'lax':
+              got = [(float(traj['x2'][k]), int(traj['n'][k])) for k in range(outer)]
+            else:
+              got = [(float(fr['x2']), int(fr['n'])) for fr in traj]
+          except Exception as e:      # the code under test raised, or its frames do not have the structure post_process_fn returns
+            out.fail(name, witness={'outer_steps': outer, 'inner_steps': inner, 'start_with_input': swi},
+                     detail=f'frames are not post_process_fn outputs / call raised: {type(e).__name__}: {e}', key=name)
+            continue
           want = [(fr['x2'], fr['n']) for fr in rframes]
           ok = int(final['n']) == rf['n'] and abs(float(final['x']) - rf['x']) <= 1e-12 * max(1, abs(rf['x'])) and \
               len(got) == len(want) and all(g[1] == w_[1] and abs(g[0] - w_[0]) <= 1e-12 * max(1, abs(w_[0])) for g, w_ in zip(got, want))
